@@ -263,6 +263,9 @@ class Sizeof(Expression):
         super().__init__(loc)
         self.query_typ = typ
 
+    def __repr__(self):
+        return f"SIZEOF {self.query_typ}"
+
 
 class Deref(Expression):
     """Data pointer dereference"""
